@@ -34,6 +34,7 @@ CONFIG = dict(
 
 OPS = ["arm", "ml", "ml+", "remove", "enter", "leave", "leave_exc"]
 FLAGGED = b"cvp_sink\nhit\n(S'probe'\ntR."
+ADDITION_PROBE = b"ccollections\nCounter\n)R."      # allowed exactly while the 'ml+' additions are in force
 NAMES = ("pickle.load", "pickle.loads", "_pickle.load", "_pickle.loads")
 
 
@@ -109,6 +110,23 @@ def probe_all(U):
             else:
                 res = f"other:{type(e).__name__}" + (":ran" if vp_sink.LOG else "")
         out.append(res)
+    # second probe: a harmless global that only the 'ml+' activation allows; distinguishes which
+    # additions are in force where the function objects themselves are identical
+    for i, fn in enumerate(bindings()):
+        try:
+            if i % 2 == 0:
+                fn(io.BytesIO(ADDITION_PROBE))
+            else:
+                fn(ADDITION_PROBE)
+            out.append("add:allowed")
+        except U:
+            out.append("add:blocked")
+        except Exception as e:
+            chain, x = [], e
+            while x is not None and len(chain) < 5:
+                chain.append(x)
+                x = x.__cause__ or x.__context__
+            out.append("add:blocked" if any(isinstance(c, U) for c in chain) else f"add:other:{type(e).__name__}")
     del vp_sink.LOG[:]
     return tuple(out)
 
@@ -134,7 +152,7 @@ def run_history(ctx, mods, hist):
                 model = ["ml"] * 4
             elif op == "ml+":
                 hook.activate_safe_ml_environment(also_allow=["collections.Counter"])
-                model = ["ml"] * 4
+                model = ["ml+"] * 4
             elif op == "remove":
                 hook.remove_hook()
                 model = ["orig"] * 4
@@ -173,8 +191,15 @@ def run_history(ctx, mods, hist):
             steps.append(op)
             agg.count("steps")
             beh = probe_all(U)
-            agg.count("probes", 4)
+            agg.count("probes", 8)
             agg.hist("behaviours", ",".join(beh))
+            for i in range(4):
+                if model[i] in ("ml", "ml+") and beh[4 + i] != ("add:allowed" if model[i] == "ml+" else "add:blocked"):
+                    agg.violation(f"wrong-additions-in-force:{NAMES[i]}",
+                                  f"model says {NAMES[i]} runs the ML environment {'with' if model[i] == 'ml+' else 'without'} "
+                                  f"additions, but the addition probe is {beh[4 + i]}",
+                                  dict(w, steps=list(steps), behaviour=beh, model=list(model)))
+                    return
             for i in range(4):
                 if model[i] != "orig" and beh[i] != "blocked":
                     agg.violation(f"unprotected-while-armed:{NAMES[i]}",
